@@ -8,6 +8,7 @@
  *   3 set_output(S0)  4 set_output(S1)  5 set_output(NULL)
  *   6 input(buffer #n: 3 symbolic octets, first octet of the ORIGINAL kept by the harness)
  *   7 flush           8 S0 starts rejecting flow definitions   9 S0 accepts again
+ *   10 (helper-built pipe only) the pipe rebuilds its output flow definition: take out, amend, store back
  * After the sequence the pipe is released, then the sinks; monitors run online and at the end. */
 #define ENV_SINK_HOOKS 1
 #include "pipe_env.h"
@@ -21,6 +22,8 @@
 #define P_HTONS 7
 #define P_NULL 8
 #define P_MATCH_ATTR 9
+#define P_HELPER 10
+#define P_HOLD 11
 
 #if PIPE == P_IDEM
 #include "lib/upipe-modules/upipe_idem.c"
@@ -54,13 +57,191 @@
 #elif PIPE == P_MATCH_ATTR
 #include "lib/upipe-modules/upipe_match_attr.c"
 #define MGR_ALLOC() upipe_match_attr_mgr_alloc()
+#elif PIPE == P_HELPER
+/* A pass-through pipe assembled in the harness from the REAL helper macros (upipe_helper_upipe / urefcount /
+ * void / output), used the way several real pipes use them (upipe_audio_merge, upipe_play, upipe_sync,
+ * ts_psi_join): operation 10 rebuilds the output flow definition by taking it out of the pipe (field set to
+ * NULL), amending it and storing it back with store_flow_def(). */
+#include "upipe/upipe_helper_upipe.h"
+#include "upipe/upipe_helper_urefcount.h"
+#include "upipe/upipe_helper_void.h"
+#include "upipe/upipe_helper_output.h"
+#include "upipe/uref_clock.h"
+struct hpipe {
+    struct urefcount urefcount;
+    struct upipe *output;
+    struct uref *flow_def;
+    enum upipe_helper_output_state output_state;
+    struct uchain request_list;
+    uint64_t latency;
+    struct upipe upipe;
+};
+UPIPE_HELPER_UPIPE(hpipe, upipe, UBASE_FOURCC('h', 'p', 'i', 'p'))
+UPIPE_HELPER_UREFCOUNT(hpipe, urefcount, hpipe_free)
+UPIPE_HELPER_VOID(hpipe)
+UPIPE_HELPER_OUTPUT(hpipe, output, flow_def, output_state, request_list)
+static void hpipe_input(struct upipe *upipe, struct uref *uref, struct upump **upump_p)
+{
+    hpipe_output(upipe, uref, upump_p);
+}
+static void hpipe_build_flow_def(struct upipe *upipe)
+{
+    struct hpipe *h = hpipe_from_upipe(upipe);
+    struct uref *flow_def = h->flow_def;
+    if (flow_def == NULL)
+        return;
+    h->flow_def = NULL;
+    h->latency++;
+    if (!ubase_check(uref_clock_set_latency(flow_def, h->latency)))
+        upipe_throw_error(upipe, UBASE_ERR_ALLOC);
+    hpipe_store_flow_def(upipe, flow_def);
+}
+static int hpipe_control(struct upipe *upipe, int command, va_list args)
+{
+    UBASE_HANDLED_RETURN(hpipe_control_output(upipe, command, args));
+    switch (command) {
+        case UPIPE_SET_FLOW_DEF: {
+            struct uref *flow_def = va_arg(args, struct uref *);
+            if (flow_def == NULL)
+                return UBASE_ERR_INVALID;
+            struct uref *dup = uref_dup(flow_def);
+            if (dup == NULL)
+                return UBASE_ERR_ALLOC;
+            hpipe_store_flow_def(upipe, dup);
+            return UBASE_ERR_NONE;
+        }
+        default:
+            return UBASE_ERR_UNHANDLED;
+    }
+}
+static struct upipe *hpipe_alloc(struct upipe_mgr *mgr, struct uprobe *uprobe, uint32_t signature, va_list args)
+{
+    struct upipe *upipe = hpipe_alloc_void(mgr, uprobe, signature, args);
+    if (upipe == NULL)
+        return NULL;
+    hpipe_init_urefcount(upipe);
+    hpipe_init_output(upipe);
+    hpipe_from_upipe(upipe)->latency = 0;
+    upipe_throw_ready(upipe);
+    return upipe;
+}
+static void hpipe_free(struct upipe *upipe)
+{
+    upipe_throw_dead(upipe);
+    hpipe_clean_output(upipe);
+    hpipe_clean_urefcount(upipe);
+    hpipe_free_void(upipe);
+}
+static struct upipe_mgr hpipe_mgr = { .refcount = NULL, .signature = UBASE_FOURCC('h', 'p', 'i', 'p'),
+    .upipe_alloc = hpipe_alloc, .upipe_input = hpipe_input, .upipe_control = hpipe_control, .upipe_mgr_control = NULL };
+#define MGR_ALLOC() (&hpipe_mgr)
+#define HAS_REBUILD 1
+#elif PIPE == P_HOLD
+/* A buffering pipe assembled in the harness from the REAL upipe_helper_input.h + upipe_helper_output.h macros,
+ * written like the real users of the helper (queue sink, file sinks...): a buffer that cannot be handled now is
+ * held (and the source pump would be blocked); when the downstream unblocks, held buffers are output first,
+ * in arrival order.  "Downstream blocked" is a credit counter driven by the harness: operation 11 grants one
+ * more buffer, 13 two more, 12 is the downstream's "writable again" notification (drain). */
+#include "upipe/upipe_helper_upipe.h"
+#include "upipe/upipe_helper_urefcount.h"
+#include "upipe/upipe_helper_void.h"
+#include "upipe/upipe_helper_output.h"
+#include "upipe/upipe_helper_input.h"
+struct hold {
+    struct urefcount urefcount;
+    struct upipe *output;
+    struct uref *flow_def;
+    enum upipe_helper_output_state output_state;
+    struct uchain request_list;
+    struct uchain urefs;
+    unsigned int nb_urefs;
+    unsigned int max_urefs;
+    struct uchain blockers;
+    unsigned credit;
+    struct upipe upipe;
+};
+static bool hold_handle(struct upipe *upipe, struct uref *uref, struct upump **upump_p);
+UPIPE_HELPER_UPIPE(hold, upipe, UBASE_FOURCC('h', 'o', 'l', 'd'))
+UPIPE_HELPER_UREFCOUNT(hold, urefcount, hold_free)
+UPIPE_HELPER_VOID(hold)
+UPIPE_HELPER_OUTPUT(hold, output, flow_def, output_state, request_list)
+UPIPE_HELPER_INPUT(hold, urefs, nb_urefs, max_urefs, blockers, hold_handle)
+static bool hold_handle(struct upipe *upipe, struct uref *uref, struct upump **upump_p)
+{
+    struct hold *h = hold_from_upipe(upipe);
+    if (h->credit == 0)
+        return false;
+    h->credit--;
+    hold_output(upipe, uref, upump_p);
+    return true;
+}
+static void hold_input(struct upipe *upipe, struct uref *uref, struct upump **upump_p)
+{
+    if (!hold_check_input(upipe)) {
+        hold_hold_input(upipe, uref);
+        hold_block_input(upipe, upump_p);
+    } else if (!hold_handle(upipe, uref, upump_p)) {
+        hold_hold_input(upipe, uref);
+        hold_block_input(upipe, upump_p);
+    }
+}
+static void hold_drain(struct upipe *upipe)
+{
+    if (hold_output_input(upipe))
+        hold_unblock_input(upipe);
+}
+static int hold_control(struct upipe *upipe, int command, va_list args)
+{
+    UBASE_HANDLED_RETURN(hold_control_output(upipe, command, args));
+    switch (command) {
+        case UPIPE_SET_FLOW_DEF: {
+            struct uref *flow_def = va_arg(args, struct uref *);
+            if (flow_def == NULL)
+                return UBASE_ERR_INVALID;
+            struct uref *dup = uref_dup(flow_def);
+            if (dup == NULL)
+                return UBASE_ERR_ALLOC;
+            hold_store_flow_def(upipe, dup);
+            return UBASE_ERR_NONE;
+        }
+        case UPIPE_FLUSH:
+            hold_flush_input(upipe);
+            return UBASE_ERR_NONE;
+        default:
+            return UBASE_ERR_UNHANDLED;
+    }
+}
+static struct upipe *hold_alloc(struct upipe_mgr *mgr, struct uprobe *uprobe, uint32_t signature, va_list args)
+{
+    struct upipe *upipe = hold_alloc_void(mgr, uprobe, signature, args);
+    if (upipe == NULL)
+        return NULL;
+    hold_init_urefcount(upipe);
+    hold_init_output(upipe);
+    hold_init_input(upipe);
+    hold_from_upipe(upipe)->credit = 0;
+    upipe_throw_ready(upipe);
+    return upipe;
+}
+static void hold_free(struct upipe *upipe)
+{
+    upipe_throw_dead(upipe);
+    hold_clean_input(upipe);
+    hold_clean_output(upipe);
+    hold_clean_urefcount(upipe);
+    hold_free_void(upipe);
+}
+static struct upipe_mgr hold_mgr = { .refcount = NULL, .signature = UBASE_FOURCC('h', 'o', 'l', 'd'),
+    .upipe_alloc = hold_alloc, .upipe_input = hold_input, .upipe_control = hold_control, .upipe_mgr_control = NULL };
+#define MGR_ALLOC() (&hold_mgr)
+#define HAS_HOLD 1
 #endif
 #ifndef CONFIGURE
 #define CONFIGURE(p) do {} while (0)
 #endif
 
 #define NBYTES 3
-#define MAXIN 4
+#define MAXIN 5
 static struct upipe *P;
 static bool p_dead;
 static uint8_t sent[MAXIN][NBYTES];     /* original payload of every buffer handed to the pipe */
@@ -184,7 +365,7 @@ int main(void)
                 int err = upipe_set_flow_def(P, fd);
                 uref_free(fd);
                 if (ops[k] == 2) {
-#if PIPE != P_IDEM && PIPE != P_NULL && PIPE != P_PROBE_UREF && PIPE != P_SETATTR && PIPE != P_SETFLOWDEF && PIPE != P_DELAY && PIPE != P_MATCH_ATTR
+#if PIPE != P_IDEM && PIPE != P_NULL && PIPE != P_PROBE_UREF && PIPE != P_SETATTR && PIPE != P_SETFLOWDEF && PIPE != P_DELAY && PIPE != P_MATCH_ATTR && PIPE != P_HELPER && PIPE != P_HOLD
                     VASSERT(!ubase_check(err), "a flow definition of the wrong kind is refused");
 #endif
                     if (ubase_check(err)) {     /* type-agnostic pipes accept anything */
@@ -221,6 +402,19 @@ int main(void)
                 (void)upipe_flush(P);
                 break;
             case 8: env_sinks[0].accept = false; break;
+#ifdef HAS_REBUILD
+            case 10:        /* the pipe rebuilds (amends) its output flow definition */
+                hpipe_build_flow_def(P);
+                if (have_def)
+                    for (int s = 0; s < ENV_NSINKS; s++)
+                        need_def[s] = true;     /* the definition changed: every output must be told */
+                break;
+#endif
+#ifdef HAS_HOLD
+            case 11: hold_from_upipe(P)->credit += 1; break;    /* the downstream can take one more buffer */
+            case 13: hold_from_upipe(P)->credit += 2; break;
+            case 12: hold_drain(P); break;                      /* "writable again": held buffers first, in arrival order */
+#endif
             default: env_sinks[0].accept = true; break;
         }
         probe_check_order();
